@@ -176,6 +176,19 @@ fn qlogger(mode: QlogMode, sink: &Arc<Captured>) -> Option<Arc<dyn QLog + Send +
 fn client_params(cfg: &RunCfg) -> ClientParameters {
     let mut p = client_parameters();
     tune(&mut p, cfg);
+    if cfg.tiny_windows {
+        // different from the server's values: a limit taken from the wrong side is observable
+        for (id, v) in [
+            (ParameterId::InitialMaxData, 450u32),
+            (ParameterId::InitialMaxStreamDataBidiLocal, 210),
+            (ParameterId::InitialMaxStreamDataBidiRemote, 330),
+            (ParameterId::InitialMaxStreamDataUni, 180),
+            (ParameterId::InitialMaxStreamsBidi, 3),
+            (ParameterId::InitialMaxStreamsUni, 1),
+        ] {
+            p.set(id, v).expect("param");
+        }
+    }
     if let Some((c, _)) = cfg.dgram_max {
         p.set(ParameterId::MaxDatagramFrameSize, c).expect("dgram");
     }
